@@ -88,7 +88,15 @@ class DiagLinearOperator(TriangularLinearOperator):
         self: Float[LinearOperator, "... #M #N"],
         other: Union[Float[torch.Tensor, "... #M #N"], Float[LinearOperator, "... #M #N"]],
     ) -> Float[LinearOperator, "... M N"]:
-        return DiagLinearOperator(self._diag * other._diagonal())
+        return DiagLinearOperator(self._diag * self._broadcast_diagonal_of(other))
+
+    def _broadcast_diagonal_of(self, other: LinearOperator) -> Tensor:
+        # The diagonal of `other` after broadcasting it against this operator
+        # (in an elementwise product `other` may be e.g. a 1 x N row that scales the columns)
+        if other.shape[-2:] == self.shape[-2:]:
+            return other._diagonal()
+        shape = torch.broadcast_shapes(self.shape, other.shape)
+        return other.to_dense().expand(*shape).diagonal(dim1=-2, dim2=-1)
 
     def _prod_batch(self, dim: int) -> LinearOperator:
         return self.__class__(self._diag.prod(dim))
